@@ -228,10 +228,13 @@ func suiteHist(seed uint64, n int, work, prof string) {
 		suiteCrash(seed, n, work, true, true)
 		return
 	case "mergecrash":
-		suiteMergeCrash(seed, n, work, false)
+		suiteMergeCrash(seed, n, work, false, false)
 		return
 	case "mergepower":
-		suiteMergeCrash(seed, n, work, true)
+		suiteMergeCrash(seed, n, work, true, false)
+		return
+	case "mergecrashpos":
+		suiteMergeCrash(seed, n, work, false, true)
 		return
 	case "mergefault":
 		suiteMergeFault(seed, n, work)
